@@ -103,16 +103,41 @@ def py_of(t, v):
         return codec.to_py(t, v)
 
 
+def as_property(obj, t):
+    """the public wrapper of a type inside a definition: a property, with the default value a definition may declare"""
+    from lxml import etree
+    from replay_unpack.core.entity_def.base_definition import Property
+    default = None
+    if t['k'] == 'int':
+        default = etree.fromstring('<Default> 7 </Default>')
+    elif t['k'] == 'string':
+        default = etree.fromstring('<Default>dflt</Default>')
+    try:
+        return Property('p', obj, 'ALL_CLIENTS', default)
+    except Exception:
+        return Property('p', obj, 'ALL_CLIENTS')
+
+
 def impl_write_read(obj, t, pv, h):
     s = io.BytesIO()
+    # with the default header size, every other case goes through the Property wrapper (the public API the property names)
+    via_prop = h == 1 and (len(json.dumps(t)) % 2 == 0)
+    if via_prop:
+        try:
+            obj = as_property(obj, t)
+        except Exception:
+            via_prop = False
     try:
-        obj.write_to_stream(s, pv, h)
+        if via_prop:
+            obj.write_to_stream(s, pv)
+        else:
+            obj.write_to_stream(s, pv, h)
     except Exception as e:
         return {'err': codec.err_class(e)}
     data = s.getvalue()
     s.seek(0)
     try:
-        back = obj.create_from_stream(s, h)
+        back = obj.create_from_stream(s) if via_prop else obj.create_from_stream(s, h)
         return {'ok': data.hex(), 'back': codec.canon_py(t, back), 'left': len(data) - s.tell()}
     except Exception as e:
         return {'ok': data.hex(), 'backErr': codec.err_class(e)}
@@ -147,6 +172,20 @@ def run_cases(chk, drv, cases, label):
             if 'ok' in got:
                 chk.report('an unrepresentable value (%s) is written instead of refused' % why,
                            {'kind': 'write', 'ty': t, 'val': v, 'h': h, 'impl': got, 'why': why})
+        # ---- None is a value like any other: only an AllowNone dict can hold it (probed through both the type and the property wrapper)
+        if i % 4 == 0 and not (t['k'] == 'dict' and t.get('allowNone')):
+            for wrapper in (obj, None):
+                try:
+                    w = wrapper if wrapper is not None else as_property(obj, t)
+                    s0 = io.BytesIO()
+                    if wrapper is not None:
+                        w.write_to_stream(s0, None, h)
+                    else:
+                        w.write_to_stream(s0, None)
+                    chk.report('None is written as %s by a %s that cannot hold it' % (s0.getvalue().hex()[:40], 'type' if wrapper is not None else 'property of that type'),
+                               {'kind': 'write-none', 'ty': t, 'h': h, 'via': 'type' if wrapper is not None else 'property', 'bytes': s0.getvalue().hex()[:200]})
+                except Exception:
+                    chk.dist('%s:none-refused' % label)
         # ---- correspondence
         if m is not None:
             if ('ok' in m) != ('ok' in got) or ('ok' in m and m['ok'] != got['ok']):
